@@ -54,6 +54,9 @@ type Meta struct {
 	Kind    string       `json:"kind"` // normal | noerr | misfit:<what>
 	Methods []MethodMeta `json:"methods"`
 	DOrder  []string     `json:"d_field_order"`
+	// Bystander: a misfit world with a second, clean converter interface after (1)
+	// or before (2) the one holding the misfit
+	Bystander int `json:"bystander,omitempty"`
 }
 
 type fdef struct{ name, typ string }
@@ -168,14 +171,29 @@ var MisfitKinds = []string{"err-hook-on-noerr-method", "wrong-dst-type", "wrong-
 // Gen builds one gensim world. kind is "normal", "noerr" or "misfit".
 func Gen(r *sim.Rng, kind string) (*sim.WorldSpec, *Meta) {
 	// "misfit=<kind>,<n>" pins the misfit kind and the number of additional arguments
-	forcedMisfit, forcedExtras := "", -1
+	// (and, as a third number, a bystander: 1 = a second, clean converter interface
+	// declared after the one with the misfit and sorting after it, 2 = one declared
+	// before it and sorting before it: a setup file is rejected as a whole)
+	forcedMisfit, forcedExtras, bystander := "", -1, 0
 	if strings.HasPrefix(kind, "misfit=") {
-		parts := strings.SplitN(strings.TrimPrefix(kind, "misfit="), ",", 2)
+		parts := strings.Split(strings.TrimPrefix(kind, "misfit="), ",")
 		forcedMisfit = parts[0]
-		if len(parts) == 2 {
+		if len(parts) >= 2 {
 			fmt.Sscanf(parts[1], "%d", &forcedExtras)
 		}
+		if len(parts) >= 3 {
+			fmt.Sscanf(parts[2], "%d", &bystander)
+		}
 		kind = "misfit"
+	}
+	// "errshape=<n>": one method with an error result naming a converter or getter
+	// whose second result is a concrete type implementing error (not the error
+	// interface), followed by an ordinary fallible converter. Refused today; a
+	// tree that accepts such functions is judged by behaviour like any world
+	errShape := -1
+	if strings.HasPrefix(kind, "errshape=") {
+		fmt.Sscanf(strings.TrimPrefix(kind, "errshape="), "%d", &errShape)
+		kind = "errshape"
 	}
 	w := &sim.WorldSpec{Files: map[string]string{}, Setup: "mod/conv/setup.go"}
 	meta := &Meta{Kind: kind}
@@ -227,6 +245,9 @@ func Gen(r *sim.Rng, kind string) (*sim.WorldSpec, *Meta) {
 	sb.WriteString(getterText("S", "G", "S.G", true, getBPtr, "Q"))
 	sb.WriteString(getterText("S", "GetB", "S.GetB", true, getBPtr, "B"))
 	sb.WriteString(getterText("S", "PlainB", "S.PlainB", false, getBPtr, "B"))
+	if kind == "errshape" {
+		sb.WriteString("func (s S) GetKE() (int, *rt.Injected) {\n\tif err := rt.HitE(\"S.GetKE\", \"getter\"); err != nil {\n\t\treturn 0, err.(*rt.Injected)\n\t}\n\treturn s.B + 1000, nil\n}\n\n")
+	}
 	sb.WriteString(getterText("Extra", "Get", "Extra.Get", true, false, "V"))
 	sb.WriteString(getterText("Extra", "Plain", "Extra.Plain", false, false, "V"))
 	w.Files["mod/ms/ms.go"] = sb.String()
@@ -255,9 +276,12 @@ func Gen(r *sim.Rng, kind string) (*sim.WorldSpec, *Meta) {
 		"func cV(xs ...any) (string, error) {\n\tif err := rt.HitE(\"cV\", \"conv\"); err != nil {\n\t\treturn \"\", err\n\t}\n\treturn fmt.Sprint(xs...), nil\n}\n\n" +
 		"func pP(v *ms.Nest) *md.Nest {\n\trt.Hit(\"pP\", \"conv\")\n\tif v == nil {\n\t\treturn &md.Nest{X: \"pP-nil\"}\n\t}\n\treturn &md.Nest{X: fmt.Sprint(\"pP-\", v.X), Y: v.Y, Z: v.Z}\n}\n\n"
 
+	if kind == "errshape" {
+		ptrStubs += "func cKE(v int) (string, *rt.Injected) {\n\tif err := rt.HitE(\"cKE\", \"conv\"); err != nil {\n\t\treturn \"\", err.(*rt.Injected)\n\t}\n\treturn fmt.Sprintf(\"cKE-%v\", v), nil\n}\n\n"
+	}
 	var setup strings.Builder
 	setup.WriteString("//go:build convergen\n\npackage conv\n\nimport (\n\t\"fmt\"\n\n\t\"example.com/g/md\"\n\t\"example.com/g/ms\"\n\t\"example.com/g/rt\"\n")
-	useHooksPkg := kind != "noerr" && r.Chance(1, 2)
+	useHooksPkg := kind != "noerr" && kind != "errshape" && r.Chance(1, 2)
 	if useHooksPkg {
 		setup.WriteString("\t_ \"example.com/g/hooks\"\n")
 	}
@@ -293,6 +317,9 @@ func Gen(r *sim.Rng, kind string) (*sim.WorldSpec, *Meta) {
 		if strings.HasPrefix(forcedMisfit, "shared-hook") {
 			nMethods = 2
 		}
+	}
+	if kind == "errshape" {
+		nMethods = 1
 	}
 	type madeHook struct {
 		h      *HookMeta
@@ -367,6 +394,21 @@ func Gen(r *sim.Rng, kind string) (*sim.WorldSpec, *Meta) {
 		slot := func(prob int) bool { return r.Chance(prob, 100) }
 		if kind == "misfit" || mm.Same {
 			slot = func(int) bool { return false }
+		}
+		if kind == "errshape" {
+			slot = func(int) bool { return false }
+			mm.RetErr, mm.Local, mm.Recv, mm.Same, mm.Extras = true, false, "", false, nil
+			notes = removeNote(notes, ":recv r")
+			switch errShape % 3 {
+			case 0:
+				notes = append(notes, ":conv cKE A")
+			case 1:
+				notes = append(notes, ":map GetKE() B")
+			case 2:
+				notes = append(notes, ":conv cKE N.X")
+			}
+			notes = append(notes, ":conv cD D")
+			capable["cKE"], capable["S.GetKE"], capable["cD"] = errShape%3 != 1, errShape%3 == 1, true
 		}
 		if mm.Same {
 			// the slots whose stubs fit identical field types on both sides
@@ -587,7 +629,7 @@ func Gen(r *sim.Rng, kind string) (*sim.WorldSpec, *Meta) {
 			madeHooks = append(madeHooks, madeHook{h, which, mm.Local, mm.Same, mm.Extras})
 			return h
 		}
-		if kind != "noerr" && kind != "misfit" {
+		if kind != "noerr" && kind != "misfit" && kind != "errshape" {
 			if r.Chance(1, 2) {
 				mm.Pre = mkHook("pre")
 				notes = append(notes, ":preprocess "+mm.Pre.Name)
@@ -795,6 +837,17 @@ func Gen(r *sim.Rng, kind string) (*sim.WorldSpec, *Meta) {
 			methods[i].Intf = 0
 		}
 	}
+	// (the method carries a notation: on the pinned tree a :convergen-marked
+	// interface whose only method has no comment at all fails at formatting,
+	// "expected declaration, found Z0" - acceptance of well-formed input is C03)
+	const bystanderMethod = "\t// :skip G\n\tZ0(*ms.S) *md.D\n"
+	if kind == "misfit" && bystander > 0 {
+		// ... and the interface with the misfit holds a method that is fine as well
+		methods = append(methods, MethodMeta{Name: "Y0", Family: "normal", Style: "return", DstPtr: true, SrcPtr: true, Intf: 0})
+	}
+	if kind == "misfit" && bystander == 2 {
+		setup.WriteString("// Another holds a method that is fine.\n// :convergen\ntype Another interface {\n" + bystanderMethod + "}\n\n")
+	}
 	for ii := 0; ii < nIntf; ii++ {
 		empty := true
 		for _, mm := range methods {
@@ -845,6 +898,13 @@ func Gen(r *sim.Rng, kind string) (*sim.WorldSpec, *Meta) {
 			fmt.Fprintf(&setup, "\t%s(%s) %s\n", mm.Name, params, res)
 		}
 		setup.WriteString("}\n\n")
+	}
+	if kind == "misfit" && bystander == 1 {
+		setup.WriteString("// Storage holds a method that is fine.\n// :convergen\ntype Storage interface {\n" + bystanderMethod + "}\n\n")
+	}
+	if kind == "misfit" && bystander > 0 {
+		methods = append(methods, MethodMeta{Name: "Z0", Family: "normal", Style: "return", DstPtr: true, SrcPtr: true, Intf: 9, Notes: []string{":skip G"}})
+		meta.Bystander = bystander
 	}
 	for _, s := range stubs {
 		setup.WriteString(stubText(s, "rt"))
